@@ -1,5 +1,6 @@
 import DiscretModel.Model.Proto
 import DiscretModel.Model.Value
+import DiscretModel.Model.Query
 /-
 Model driver for engine `query` (exe `dmodel_query`), same op files as `dv-query run`.
 
@@ -9,6 +10,9 @@ C04 (`e=c04`):
   val v=<Value> [l=<cps>] [fl=<cps>] d=<Value;…> [adm=…] [free=1]
   Value = N | S<cps> | I<int> | B0 | B1 | F<bits>:<typed cps>:<display cps>
   -> st=… raw=… res=… ret=… sib=… oth=… flt=… sql=… fsql=…   (see harness/query/src/c04.rs)
+C05 (`e=c05`): see harness/query/src/c05.rs for the op lines (`ent fld build row upgrade q qs qe qf qo ql qa qn
+run pages`); `run` prints `res=[…]` (canonical rows: the evaluator's order, rows that tie on every visible
+order key sorted by their text) or `err:sql`, `pages` the successive pages of `first n, after(last)`.
 anything else -> bad-op
 -/
 open Discret Discret.Proto Discret.Value
@@ -272,8 +276,330 @@ def observe (c : Case) (v : V) (l fl : Option (List Char)) (ds : List V) (free :
     let sib := if idLost then "-" else "ok"
     s!"st=ok raw={raw} res={res} ret={ret} sib={sib} oth=same flt={flt} sql={sql} fsql={fsql}"
 
+/-! ## C05 -/
+namespace Q5
+open Discret.Query
+
+def D5 := Discret.Query.Defects.asImplemented
+
+structure FieldS where
+  kind : FKind
+  nullable : Bool
+  dflt : Option Val
+  late : Bool
+
+inductive SelN
+  | scalar (key : String) (fld : Nat)
+  | id (key : String)
+  | sub (key : String) (fld : Nat) (child : Nat)
+
+structure Node where
+  ent : Nat
+  alias : Option String := none
+  sels : List SelN := []
+  filters : List Discret.Query.Filter := []
+  orders : List Order := []
+  first : Nat := 0
+  skip : Nat := 0
+  after : List Val := []
+  before : List Val := []
+  optional : List String := []
+
+structure Case5 where
+  ns : Bool
+  ents : List (List FieldS) := []
+  built : Bool := false
+  upgraded : Bool := false
+  rows : List Row := []
+  nodes : List (Nat × Node) := []
+
+def toVal : QDriver.V → Option Val
+  | .null => some .null
+  | .str s => some (.str s)
+  | .int i => some (.int i)
+  | .bool b => some (.bool b)
+  | .float _ _ _ => none
+
+def parseVal (t : String) : Option Val := (QDriver.parseV t).bind toVal
+
+def schemaOf (c : Case5) : Schema :=
+  c.ents.map fun e => e.map fun f => { kind := f.kind, nullable := f.nullable, dflt := f.dflt }
+
+def getNode (c : Case5) (n : Nat) : Option Node := Discret.Query.lookup n c.nodes
+
+def setNode (c : Case5) (n : Nat) (nd : Node) : Case5 :=
+  { c with nodes := (n, nd) :: c.nodes.filter (·.1 ≠ n) }
+
+def entName (c : Case5) (i : Nat) : String := if c.ns then s!"app.E{i}" else s!"E{i}"
+
+/-- `j:x|j:x…` -/
+def parsePairs (s : String) : Option (List (Nat × String)) :=
+  if s = "" then some []
+  else (s.splitOn "|").mapM fun t =>
+    match t.splitOn ":" with
+    | [j, x] => j.toNat?.map fun j => (j, x)
+    | _ => none
+
+def buildQuery (c : Case5) : Nat → Nat → Option Query
+  | 0, _ => none
+  | fuel + 1, n => do
+    let nd ← getNode c n
+    let sels ← nd.sels.mapM fun sn =>
+      match sn with
+      | .scalar key fld => some (Sel.scalar key fld)
+      | .id key => some (Sel.id key)
+      | .sub key fld child => (buildQuery c fuel child).map fun q => Sel.sub key fld (nd.optional.contains key) q
+    some (Query.mk nd.ent sels nd.filters nd.orders nd.first nd.skip nd.after nd.before)
+
+def cps (s : List Char) : String := joinWith "." (s.map fun ch => toString ch.toNat)
+
+def canonScalar : J → String
+  | .null => "N"
+  | .bool b => if b then "B1" else "B0"
+  | .int i => s!"I{i}"
+  | .str s => "S" ++ cps s
+  | .id n => s!"#{n}"
+  | _ => "?"
+
+def insertStr (x : String) : List String → List String
+  | [] => [x]
+  | y :: t => if x ≤ y then x :: y :: t else y :: insertStr x t
+
+def sortStr (l : List String) : List String := l.foldr insertStr []
+
+def fieldOf (j : J) (k : String) : Option J :=
+  match j with
+  | .obj fs => (fs.find? (·.1 = k)).map (·.2)
+  | _ => none
+
+/-- runs of consecutive rows with equal visible order keys, each sorted by text -/
+def normRuns : List (List String × String) → List String → Option (List String) → List String → List String
+  | [], run, _, acc => acc ++ sortStr run
+  | (k, t) :: rest, run, cur, acc =>
+    if cur = some k then normRuns rest (run ++ [t]) cur acc
+    else normRuns rest [t] (some k) (acc ++ sortStr run)
+
+mutual
+  def canonRow (c : Case5) : Nat → Query → J → String
+    | 0, _, _ => "?"
+    | fuel + 1, q, row =>
+      let parts := q.sels.map fun sel =>
+        match sel with
+        | .scalar key _ => key ++ "=" ++ (match fieldOf row key with | some x => canonScalar x | none => "absent")
+        | .id key => key ++ "=" ++ (match fieldOf row key with | some x => canonScalar x | none => "absent")
+        | .sub key _ _ sq =>
+          key ++ "=" ++ (match fieldOf row key with
+            | some (.arr items) => "[" ++ joinWith "," (canonRows c fuel sq items) ++ "]"
+            | some .null => "N"
+            | some (.obj fs) => canonRow c fuel sq (.obj fs)
+            | some _ => "?shape"
+            | none => "absent")
+      "{" ++ joinWith ";" parts ++ "}"
+
+  def canonRows (c : Case5) : Nat → Query → List J → List String
+    | 0, _, _ => []
+    | fuel + 1, q, items =>
+      let visible := (q.orders.filter fun o => q.sels.any fun sel =>
+        match sel with | .scalar key _ => key = o.name | _ => false).map (·.name)
+      let rows := items.map fun r =>
+        (visible.map fun k => match fieldOf r k with | some x => canonScalar x | none => "", canonRow c fuel q r)
+      normRuns rows [] none []
+end
+
+def FUEL : Nat := 8
+
+def rootKey (c : Case5) (nd : Node) : String :=
+  match nd.alias with
+  | some a => a
+  | none => (entName c nd.ent).replace "." "$"
+
+/-- the result of the root query with `first`/`after` possibly overridden (paging) -/
+def runQuery (c : Case5) (over : Option (Nat × List Val)) : Except String (Query × List J) :=
+  match getNode c 0, buildQuery c FUEL 0 with
+  | some nd, some q =>
+    let q := match over with
+      | some (n, cur) => Query.mk q.ent q.sels q.filters q.orders n 0 cur []
+      | none => q
+    if refused D5 (schemaOf c) FUEL q true then .error "err:sql"
+    else .ok (q, eval D5 (schemaOf c) c.rows FUEL (rootKey c nd) q)
+  | _, _ => .error "bad-op"
+
+def cursorOf (q : Query) (last : J) : Option (List Val) :=
+  q.orders.mapM fun o =>
+    match fieldOf last o.name with
+    | some (.int i) => some (.int i)
+    | some (.str s) => some (.str s)
+    | some (.bool b) => some (.bool b)
+    | _ => none
+
+def pagesLoop (c : Case5) (n : Nat) : Nat → List Val → List String → String × String
+  | 0, _, acc => (joinWith "/" acc, "")
+  | fuel + 1, cur, acc =>
+    match runQuery c (some (n, cur)) with
+    | .error e => (joinWith "/" acc, e)
+    | .ok (q, items) =>
+      if items.isEmpty then (joinWith "/" acc, "")
+      else
+        let acc := acc ++ [joinWith "," (canonRows c FUEL q items)]
+        match items.getLast? with
+        | none => (joinWith "/" acc, "")
+        | some last =>
+          match cursorOf q last with
+          | some cur' => pagesLoop c n fuel cur' acc
+          | none => (joinWith "/" acc, "nullcursor")
+
+def parseCmp : String → Option Cmp
+  | "eq" => some .eq | "ne" => some .ne | "lt" => some .lt | "le" => some .le | "gt" => some .gt | "ge" => some .ge
+  | _ => none
+
+def step (c : Case5) (kind : String) (toks : List String) : Case5 × String :=
+  match kind with
+  | "ent" =>
+    match nat? toks "k" with
+    | some k => if k = c.ents.length then ({ c with ents := c.ents ++ [[]] }, "ok") else (c, "bad-op")
+    | none => (c, "bad-op")
+  | "fld" =>
+    match nat? toks "e", nat? toks "k", kv? toks "ty", kv? toks "mod" with
+    | some e, some k, some ty, some md =>
+      match c.ents[e]? with
+      | none => (c, "bad-op")
+      | some fs =>
+        let dv := (kv? toks "dv").bind parseVal
+        let dvBad := (kv? toks "dv").isSome && dv.isNone
+        let kind : Option FKind := match ty with
+          | "I" => some .int | "S" => some .str | "B" => some .bool
+          | "R" => (nat? toks "to").map FKind.ref
+          | "A" => (nat? toks "to").map FKind.arr
+          | _ => none
+        match kind with
+        | some kd =>
+          if k ≠ fs.length ∨ dvBad ∨ !(["r", "n", "d"].contains md) ∨ ((md = "d") ≠ dv.isSome) then (c, "bad-op")
+          else
+            let f : FieldS := { kind := kd, nullable := md = "n", dflt := dv, late := (kv? toks "late") = some "1" }
+            ({ c with ents := c.ents.set e (fs ++ [f]) }, "ok")
+        | none => (c, "bad-op")
+    | _, _, _, _ => (c, "bad-op")
+  | "build" => ({ c with built := true }, "ok")
+  | "upgrade" => ({ c with upgraded := true }, "ok")
+  | "row" =>
+    match nat? toks "id", nat? toks "e", parsePairs ((kv? toks "v").getD ""), parsePairs ((kv? toks "r").getD "") with
+    | some id, some e, some vs, some rs =>
+      match c.ents[e]? with
+      | none => (c, "bad-op")
+      | some fs =>
+        if !c.built then (c, "err:nodb") else
+        match vs.mapM (fun (j, x) => (parseVal x).map fun v => (j, v)),
+              rs.mapM (fun (j, x) => ((x.splitOn ".").filter (· ≠ "")).mapM String.toNat? |>.map fun ids => (j, ids)) with
+        | some vals, some refs =>
+          -- references must point to existing rows
+          if refs.any (fun (_, ids) => ids.any fun t => !(c.rows.any (·.id = t))) then (c, "bad-op") else
+          -- `fill_not_nullable`: a field with a default that is part of the current model version is stored
+          let filled := (fs.zipIdx.filterMap fun (f, j) =>
+            match f.dflt with
+            | some dv => if (!f.late || c.upgraded) && !(vals.any (·.1 = j)) then some (j, dv) else none
+            | none => none)
+          let refs := refs.filter fun (j, ids) => !ids.isEmpty &&
+            (match fs[j]? with | some f => (match f.kind with | .ref _ => true | .arr _ => true | _ => false) | none => false)
+          let refs := refs.map fun (j, ids) =>
+            match fs[j]? with
+            | some f => (match f.kind with | .ref _ => (j, ids.take 1) | _ => (j, ids))
+            | none => (j, ids)
+          let row : Row := { id, ent := e, vals := vals ++ filled, refs }
+          ({ c with rows := c.rows ++ [row] }, "ok")
+        | _, _ => (c, "bad-op")
+    | _, _, _, _ => (c, "bad-op")
+  | "q" =>
+    match nat? toks "n", nat? toks "ent" with
+    | some n, some e =>
+      if e < c.ents.length then
+        let c := if n = 0 then { c with nodes := [] } else c
+        (setNode c n { ent := e, alias := kv? toks "alias" }, "ok")
+      else (c, "bad-op")
+    | _, _ => (c, "bad-op")
+  | "qs" =>
+    match nat? toks "n", kv? toks "key", kv? toks "f" with
+    | some n, some key, some f =>
+      match getNode c n with
+      | some nd =>
+        if f = "id" then (setNode c n { nd with sels := nd.sels ++ [.id key] }, "ok")
+        else match f.toNat? with
+          | some j => (setNode c n { nd with sels := nd.sels ++ [.scalar key j] }, "ok")
+          | none => (c, "bad-op")
+      | none => (c, "bad-op")
+    | _, _, _ => (c, "bad-op")
+  | "qe" =>
+    match nat? toks "n", kv? toks "key", nat? toks "f", nat? toks "child" with
+    | some n, some key, some f, some ch =>
+      match getNode c n, getNode c ch with
+      | some nd, some _ =>
+        if ch = n then (c, "bad-op") else (setNode c n { nd with sels := nd.sels ++ [.sub key f ch] }, "ok")
+      | _, _ => (c, "bad-op")
+    | _, _, _, _ => (c, "bad-op")
+  | "qf" =>
+    match nat? toks "n", kv? toks "name", kv? toks "sel", nat? toks "f", (kv? toks "op").bind parseCmp,
+          (kv? toks "v").bind parseVal with
+    | some n, some _, some sel, some f, some op, some v =>
+      match getNode c n with
+      | some nd =>
+        let flt : Discret.Query.Filter := { onAlias := sel = "1", fld := f, op, value := v, isParam := (kv? toks "var") = some "1" }
+        (setNode c n { nd with filters := nd.filters ++ [flt] }, "ok")
+      | none => (c, "bad-op")
+    | _, _, _, _, _, _ => (c, "bad-op")
+  | "qo" =>
+    match nat? toks "n", kv? toks "name", kv? toks "sel", nat? toks "f", kv? toks "dir" with
+    | some n, some name, some sel, some f, some dir =>
+      match getNode c n with
+      | some nd =>
+        if dir ≠ "asc" ∧ dir ≠ "desc" then (c, "bad-op") else
+        let o : Order := { name, onAlias := sel = "1", fld := f, desc := dir = "desc" }
+        (setNode c n { nd with orders := nd.orders ++ [o] }, "ok")
+      | none => (c, "bad-op")
+    | _, _, _, _, _ => (c, "bad-op")
+  | "ql" =>
+    match nat? toks "n", nat? toks "first", nat? toks "skip" with
+    | some n, some f, some sk =>
+      match getNode c n with
+      | some nd => (setNode c n { nd with first := f, skip := sk }, "ok")
+      | none => (c, "bad-op")
+    | _, _, _ => (c, "bad-op")
+  | "qa" =>
+    match nat? toks "n", kv? toks "kind", kv? toks "v" with
+    | some n, some k, some v =>
+      match getNode c n, (v.splitOn "|").mapM parseVal with
+      | some nd, some vals =>
+        if k = "after" then (setNode c n { nd with after := vals }, "ok")
+        else if k = "before" then (setNode c n { nd with before := vals }, "ok")
+        else (c, "bad-op")
+      | _, _ => (c, "bad-op")
+    | _, _, _ => (c, "bad-op")
+  | "qn" =>
+    match nat? toks "n", kv? toks "key" with
+    | some n, some key =>
+      match getNode c n with
+      | some nd => (setNode c n { nd with optional := nd.optional ++ [key] }, "ok")
+      | none => (c, "bad-op")
+    | _, _ => (c, "bad-op")
+  | "run" =>
+    if !c.built then (c, "err:nodb") else
+    match runQuery c none with
+    | .ok (q, items) => (c, "res=[" ++ joinWith "," (canonRows c FUEL q items) ++ "]")
+    | .error e => (c, e)
+  | "pages" =>
+    match nat? toks "n" with
+    | some n =>
+      if n = 0 then (c, "bad-op")
+      else if (kv? toks "amb") = some "1" then (c, "pages=*")
+      else
+        let (txt, note) := pagesLoop c n 60 [] []
+        (c, "pages=" ++ txt ++ (if note = "" then "" else " note=" ++ note))
+    | none => (c, "bad-op")
+  | _ => (c, "bad-op")
+
+end Q5
+
 structure St where
   c04 : Option Case := none
+  c05 : Option Q5.Case5 := none
 
 def stepLine (s : St) (line : String) : St × String :=
   let toks := tokens line
@@ -282,9 +608,10 @@ def stepLine (s : St) (line : String) : St × String :=
     match nat? rest "id", kv? rest "e" with
     | some i, some "c04" =>
       match parseCase rest with
-      | some c => ({ s with c04 := some c }, s!"case {i}")
-      | none => ({ s with c04 := none }, "bad-op")
-    | _, _ => ({ s with c04 := none }, "bad-op")
+      | some c => ({ c04 := some c, c05 := none }, s!"case {i}")
+      | none => ({ c04 := none, c05 := none }, "bad-op")
+    | some i, some "c05" => ({ c04 := none, c05 := some { ns := (kv? rest "ns") = some "1" } }, s!"case {i}")
+    | _, _ => ({ c04 := none, c05 := none }, "bad-op")
   | "val" :: rest =>
     match s.c04, (kv? rest "v").bind parseV with
     | some c, some v =>
@@ -295,6 +622,12 @@ def stepLine (s : St) (line : String) : St × String :=
       | some ds => if bad then (s, "bad-op") else (s, observe c v l fl ds ((kv? rest "free") = some "1"))
       | none => (s, "bad-op")
     | _, _ => (s, "bad-op")
+  | kind :: rest =>
+    if ["ent", "fld", "build", "upgrade", "row", "q", "qs", "qe", "qf", "qo", "ql", "qa", "qn", "run", "pages"].contains kind then
+      match s.c05 with
+      | some c => let (c', o) := Q5.step c kind rest; ({ s with c05 := some c' }, o)
+      | none => (s, "bad-op")
+    else (s, "bad-op")
   | _ => (s, "bad-op")
 
 end QDriver
